@@ -83,6 +83,21 @@ def simple_case(pcode: str, ticks: int = 30, users: dict[int, str] | None = None
             "sched": [{"dt": 0.125, "hw": {}, "user": (users or {}).get(k), "report": "upd"} for k in range(ticks)]}
 
 
+def count_gaps(ctx: Check, case: dict) -> None:
+    """distribution of the number of ticks between two reports, and whether a register changed in the last 3 ticks"""
+    gap, late = 0, False
+    window: list[bool] = []
+    for st in case["sched"]:
+        gap += 1
+        window = (window + [bool(st["hw"]) or bool(st.get("user"))])[-3:]
+        if st.get("report"):
+            b = "1-5" if gap <= 5 else "6-40" if gap <= 40 else "41-120" if gap <= 120 else "121-300"
+            ctx.count(f"gap:{b}:{st['report']}")
+            if gap > 40 and any(window):
+                ctx.count("gap>40:change-in-last-3-ticks")
+            gap = 0
+
+
 def corpus_cases() -> list[dict]:
     if not CORPUS.is_dir():
         return []
@@ -141,6 +156,7 @@ def run(ctx: Check) -> int:
     cases = corpus_cases()
     n_corpus = len(cases)
     cases += [tagrep.gen_case(rng, malformed=(i % 6 == 5)) for i in range(ctx.n(40, 1000))]
+    cases += [tagrep.gen_gap_case(rng, total=ctx.n(180, 400)) for _ in range(ctx.n(3, 40))]   # reports after long gaps
     results: dict[int, dict] = {}
 
     def traced(c):
@@ -167,11 +183,17 @@ def run(ctx: Check) -> int:
         ctx.count("runs:with-user-commands" if any(s.get("user") for s in c["sched"]) else "runs:plain")
         ctx.count("reports", len(r["obs"]))
         ctx.count("reports:snapshot", sum(1 for o in r["obs"] if o["kind"] == "snap"))
+        count_gaps(ctx, c)
         for f in oracle(c, r):
             ctx.fail(f)
         ctx.evaluations += 1
     # more oracle-only runs (no recorder)
     more = [tagrep.gen_case(rng, malformed=(i % 6 == 5)) for i in range(ctx.n(60, 3000))]
+    # reports after arbitrary numbers of ticks: gaps of 1..300 ticks with changes in the last ticks of the gap,
+    # incremental reports and snapshots after the gap
+    more += [tagrep.gen_gap_case(rng) for _ in range(ctx.n(30, 700))]
+    for c in more:
+        count_gaps(ctx, c)
     ctx.monitor(more, lambda c: oracle(c, tagrep.run_case(c)), impl_timeout=60, timeout_key="engine-run-timeout")
     ctx.rule = ("tag-ops: operation sequences on the real objects of a stopped engine (22 tags): exhaustive short "
                 "sequences + random ones of 8-40 operations (set / simulate / simulate with unit / failing simulate / "
@@ -180,7 +202,9 @@ def run(ctx: Check) -> int:
                 "engine-trace: grammar-generated methods (blocks, watches, alarms, macros, waits, marks, commands, "
                 "Simulate / Simulate off incl. failing ones, 1 in 6 malformed) x 40-tick schedules with register "
                 "plans, user commands (Pause/Unpause/Hold/Unhold/Stop/Start/Restart) and reports after 1-5 ticks "
-                "(12 % snapshots); non-trivial = a simulation or a block occurs. "
+                "(12 % snapshots); plus long-gap runs: 400 ticks of an active run cut into gaps of 1-300 ticks, register "
+                "changes / user commands / the end of a Wait placed in the last 3 ticks of each gap, every gap closed by "
+                "an incremental report or (30 %) a snapshot; non-trivial = a simulation or a block occurs. "
                 f"{n_corpus} corpus cases run first.")
     ctx.exhaustive = False
     ctx.assumptions = ["reports are taken between engine ticks (collect_tag_updates is not interleaved with a tick)",
@@ -192,7 +216,8 @@ def run(ctx: Check) -> int:
 def search(ctx: Check) -> None:
     from harness import tagrep
     rng = ctx.rng
-    pool = corpus_cases() + [tagrep.gen_case(rng, malformed=(i % 5 == 4)) for i in range(ctx.n(150, 1500))]
+    pool = corpus_cases() + [tagrep.gen_gap_case(rng) for _ in range(ctx.n(40, 300))] + \
+        [tagrep.gen_case(rng, malformed=(i % 5 == 4)) for i in range(ctx.n(150, 1500))]
     for k in range(0, len(pool), 25):
         ctx.monitor(pool[k:k + 25], lambda c: oracle(c, tagrep.run_case(c)), impl_timeout=60,
                     timeout_key="engine-run-timeout")
